@@ -30,6 +30,12 @@ import ExecModel.Proofs.SysCeil
   that case (`keysAccepted_exec`: the per-call key condition implies the executor-level one;
   `accepted_keys_ok` states the condition for the dictionary the workers are started with).
 
+  Fix 8703212 (executor-level `threads_per_core` counted): `Config.slots` / `Sys.slotsOf` use the
+  effective threads per core — the per-call value, else the executor-level one (`toCfg` sets
+  `execThreads`, `orElse_getD`) — `accepted_threads_counted`, `rejects_exec_threads_above_limit`,
+  `rejects_percall_above_limit_exec_threads`, `rejects_nonpositive_threads_effective`,
+  `accepted_threads_positive`.
+
   Two statements were corrected against the model (cell: block allocation with `max_workers` given
   and `max_cores` below the cores per worker — accepted, and it runs): `rejects_cores_above_limit`
   has the extra hypothesis `hw`, and `toCfg` does not copy the limits of `.block` plans (the block
@@ -53,6 +59,14 @@ theorem validateWorkers_pos {env : Env} {mc mw : Option Nat} {cores n : Nat} {b 
     | (cases h; done)
     | (obtain ⟨c, h⟩ := ite_ok h; cases h; omega)
 
+/-- the back end `create_executor` works with: `flux_executor=` given selects the flux allocation -/
+def effBackend (o : Opts) : Backend :=
+  if o.fluxExec && o.backend != .fluxAlloc then Backend.fluxAlloc else o.backend
+
+/-- the executor-level threads per core when the call names none -/
+theorem orElse_getD (a b : Option Nat) : (a <|> b).getD 1 = a.getD (b.getD 1) := by
+  cases a <;> rfl
+
 /-- inversion of `createExecutor`: what an accepted option set looks like -/
 structure CeInv (env : Env) (o : Opts) (p : Plan) : Prop where
   resolver : p.resolver = false
@@ -62,6 +76,13 @@ structure CeInv (env : Env) (o : Opts) (p : Plan) : Prop where
   cores : p.cores = o.rd.cores.getD 1
   coresPos : 1 ≤ o.rd.cores.getD 1
   threadsPos : 1 ≤ o.rd.threads.getD 1
+  /-- the executor-level threads per core handed to the workers (none on the local back end) are positive -/
+  threadsPosPlan : 1 ≤ p.rd.threads.getD 1
+  /-- the local back end does not hand `threads_per_core` on, the others hand on what they were given -/
+  rdThreads : p.rd.threads = if effBackend o == .local then none else o.rd.threads
+  /-- `check_resource_limits` (fix 8703212): without block allocation the executor-level request,
+      cores times the threads per core handed on, fits `max_cores` -/
+  limit : o.block = false → ∀ mc, o.maxCores = some mc → o.rd.cores.getD 1 * p.rd.threads.getD 1 ≤ mc
   spawner : p.spawner = .flux → env.flux = true
   /-- `check_resource_dict_keys` in the executor constructors (fix D20FIX) -/
   known : p.rd.unknown = false
@@ -85,28 +106,37 @@ private theorem inv_block {env : Env} {o : Opts} {n : Nat} {sp : Spawner} {rd : 
     (hv : validateWorkers env o.maxCores o.maxWorkers (o.rd.cores.getD 1) b = .ok n)
     (hsp : sp = .flux → env.flux = true)
     (hu : ¬ rd.unknown = true) (hru : rd.unknown = o.rd.unknown)
-    (hmk : sp = .mpiexec → rd.gpus = none ∧ rd.extra = .absent) :
+    (hmk : sp = .mpiexec → rd.gpus = none ∧ rd.extra = .absent)
+    (htp : 1 ≤ rd.threads.getD 1)
+    (hth : rd.threads = if effBackend o == .local then none else o.rd.threads) :
     CeInv env o
       { kind := .block n, resolver := false, plot := false, spawner := sp, maxCores := o.maxCores,
         maxWorkers := o.maxWorkers, rd := rd, cores := o.rd.cores.getD 1, fileBackendParam := false } :=
-  ⟨rfl, rfl, rfl, rfl, rfl, hpos.1, hpos.2, hsp, Bool.eq_false_iff.2 hu, hru, hmk, .inl ⟨hb, n, b, hv, rfl⟩⟩
+  ⟨rfl, rfl, rfl, rfl, rfl, hpos.1, hpos.2, htp, hth, (fun hb' => by rw [hb] at hb'; cases hb'),
+    hsp, Bool.eq_false_iff.2 hu, hru, hmk, .inl ⟨hb, n, b, hv, rfl⟩⟩
 
-private theorem inv_step {env : Env} {o : Opts} {sp : Spawner} {rd : RD}
+private theorem inv_step {env : Env} {o : Opts} {sp : Spawner} {rd : RD} {t : Nat}
     (hb : ¬ o.block = true)
     (hpos : 1 ≤ o.rd.cores.getD 1 ∧ 1 ≤ o.rd.threads.getD 1)
-    (c4 : ¬ (!o.block && (match o.maxCores with | some mc => decide (mc < o.rd.cores.getD 1) | none => false)) = true)
+    (c4 : ¬ (!o.block && (match o.maxCores with | some mc => decide (mc < o.rd.cores.getD 1 * t) | none => false)) = true)
     (c5 : ¬ (!o.block && o.maxCores.isNone && (match o.maxWorkers with | some mw => decide (mw < 1) | none => false)) = true)
     (hsp : sp = .flux → env.flux = true)
     (hu : ¬ rd.unknown = true) (hru : rd.unknown = o.rd.unknown)
-    (hmk : sp = .mpiexec → rd.gpus = none ∧ rd.extra = .absent) :
+    (hmk : sp = .mpiexec → rd.gpus = none ∧ rd.extra = .absent)
+    (ht : t = rd.threads.getD 1) (htp : 1 ≤ rd.threads.getD 1)
+    (hth : rd.threads = if effBackend o == .local then none else o.rd.threads) :
     CeInv env o
       { kind := .step, resolver := false, plot := false, spawner := sp, maxCores := o.maxCores,
         maxWorkers := o.maxWorkers, rd := rd, cores := o.rd.cores.getD 1, fileBackendParam := false } := by
   have hb' : o.block = false := by simpa using hb
-  refine ⟨rfl, rfl, rfl, rfl, rfl, hpos.1, hpos.2, hsp, Bool.eq_false_iff.2 hu, hru, hmk, .inr ⟨hb', rfl, ?_, ?_⟩⟩
-  · intro mc hmc
+  have hlim : ∀ mc, o.maxCores = some mc → o.rd.cores.getD 1 * rd.threads.getD 1 ≤ mc := by
+    intro mc hmc
     simp [hmc, hb'] at c4
-    exact c4
+    rw [← ht]; exact c4
+  refine ⟨rfl, rfl, rfl, rfl, rfl, hpos.1, hpos.2, htp, hth, fun _ => hlim,
+    hsp, Bool.eq_false_iff.2 hu, hru, hmk, .inr ⟨hb', rfl, ?_, ?_⟩⟩
+  · intro mc hmc
+    exact Nat.le_trans (Nat.le_mul_of_pos_right _ htp) (hlim mc hmc)
   · intro hmc mw hmw
     simp [hmc, hmw, hb'] at c5
     omega
@@ -114,7 +144,8 @@ private theorem inv_step {env : Env} {o : Opts} {sp : Spawner} {rd : RD}
 theorem createExecutor_inv {env : Env} {o : Opts} {p : Plan} (h : createExecutor env o = .ok p) : CeInv env o p := by
   unfold createExecutor at h
   replace h := ite_ok h; obtain ⟨-, h⟩ := h
-  generalize (if (o.fluxExec && o.backend != Backend.fluxAlloc) = true then Backend.fluxAlloc else o.backend) = backend at h
+  have hbk : effBackend o = (if (o.fluxExec && o.backend != Backend.fluxAlloc) = true then Backend.fluxAlloc else o.backend) := rfl
+  generalize (if (o.fluxExec && o.backend != Backend.fluxAlloc) = true then Backend.fluxAlloc else o.backend) = backend at h hbk
   replace h := ite_ok h; obtain ⟨-, h⟩ := h
   replace h := ite_ok h; obtain ⟨-, h⟩ := h
   replace h := ite_ok h; obtain ⟨c3, h⟩ := h
@@ -132,10 +163,10 @@ theorem createExecutor_inv {env : Env} {o : Opts} {p : Plan} (h : createExecutor
       · cases h
       · rename_i n hv
         replace h := ite_ok h; obtain ⟨hu, h⟩ := h
-        cases h; exact inv_block hb hpos hv (fun hx => nomatch hx) hu rfl (fun _ => ⟨rfl, rfl⟩)
+        cases h; exact inv_block hb hpos hv (fun hx => nomatch hx) hu rfl (fun _ => ⟨rfl, rfl⟩) (Nat.le_refl 1) (by rw [hbk]; rfl)
     · rw [if_neg hb] at h
       replace h := ite_ok h; obtain ⟨hu, h⟩ := h
-      cases h; exact inv_step hb hpos c4 c5 (fun hx => nomatch hx) hu rfl (fun _ => ⟨rfl, rfl⟩)
+      cases h; exact inv_step (t := 1) hb hpos c4 c5 (fun hx => nomatch hx) hu rfl (fun _ => ⟨rfl, rfl⟩) rfl (Nat.le_refl 1) (by rw [hbk]; rfl)
   case slurmAlloc =>
     replace h := ite_ok h; obtain ⟨-, h⟩ := h
     by_cases hb : o.block = true
@@ -144,10 +175,10 @@ theorem createExecutor_inv {env : Env} {o : Opts} {p : Plan} (h : createExecutor
       · cases h
       · rename_i n hv
         replace h := ite_ok h; obtain ⟨hu, h⟩ := h
-        cases h; exact inv_block hb hpos hv (fun hx => nomatch hx) hu rfl (fun hx => nomatch hx)
+        cases h; exact inv_block hb hpos hv (fun hx => nomatch hx) hu rfl (fun hx => nomatch hx) hpos.2 (by rw [hbk]; rfl)
     · rw [if_neg hb] at h
       replace h := ite_ok h; obtain ⟨hu, h⟩ := h
-      cases h; exact inv_step hb hpos c4 c5 (fun hx => nomatch hx) hu rfl (fun hx => nomatch hx)
+      cases h; exact inv_step (t := o.rd.threads.getD 1) hb hpos c4 c5 (fun hx => nomatch hx) hu rfl (fun hx => nomatch hx) rfl hpos.2 (by rw [hbk]; rfl)
   case fluxAlloc =>
     replace h := ite_ok h; obtain ⟨-, h⟩ := h
     replace h := ite_ok h; obtain ⟨-, h⟩ := h
@@ -159,13 +190,13 @@ theorem createExecutor_inv {env : Env} {o : Opts} {p : Plan} (h : createExecutor
         split at h
         · rename_i hfl
           replace h := ite_ok h; obtain ⟨hu, h⟩ := h
-          cases h; exact inv_block hb hpos hv (fun _ => hfl) hu rfl (fun hx => nomatch hx)
+          cases h; exact inv_block hb hpos hv (fun _ => hfl) hu rfl (fun hx => nomatch hx) hpos.2 (by rw [hbk]; rfl)
         · cases h
     · rw [if_neg hb] at h
       split at h
       · rename_i hfl
         replace h := ite_ok h; obtain ⟨hu, h⟩ := h
-        cases h; exact inv_step hb hpos c4 c5 (fun _ => hfl) hu rfl (fun hx => nomatch hx)
+        cases h; exact inv_step (t := o.rd.threads.getD 1) hb hpos c4 c5 (fun _ => hfl) hu rfl (fun hx => nomatch hx) rfl hpos.2 (by rw [hbk]; rfl)
       · cases h
   all_goals cases h
 
@@ -233,7 +264,8 @@ private theorem region_none_core {a u m : Bool}
 
 /-- `submit` on a step executor: cores and threads must be positive (fix 55646a2) and the request is
     compared with `max_cores` in slots (`_default_cores` of fix 472d455 is the executor-level cores
-    the worker thread uses) -/
+    the worker thread uses; `_default_threads_per_core` of fix 8703212 the executor-level threads
+    per core, used when the call names none) -/
 private theorem submitCheck_step {p : Plan} {pc : RD} {fnrd : Bool} (hk : p.kind = .step)
     (hpl : (p.resolver && p.plot) = false) :
     submitCheck p pc fnrd =
@@ -241,12 +273,12 @@ private theorem submitCheck_step {p : Plan} {pc : RD} {fnrd : Bool} (hk : p.kind
             | .mpiexec => pc.gpus.isSome || pc.extra != .absent
             | _ => false)) = true
       then .error .valueError
-      else if ((decide ((effective p pc).cores.getD 1 < 1) || decide (pc.threads.getD 1 < 1)) ||
+      else if ((decide ((effective p pc).cores.getD 1 < 1) || decide ((pc.threads <|> p.rd.threads).getD 1 < 1)) ||
           (match p.maxCores with | some mc => decide (mc < slots p pc) | none => false)) = true
       then .error .valueError
       else if fnrd = true then .error .valueError else .ok () := by
   unfold submitCheck slots effective
-  simp only [hpl, hk, Bool.false_eq_true, if_false, Option.getD_some]
+  simp only [hpl, hk, Bool.false_eq_true, if_false, Option.getD_some, orElse_getD]
   rfl
 
 /-- **An accepted call fits `max_cores`** (fixes 06d6e8a, 472d455): whatever `submit` lets through
@@ -261,12 +293,23 @@ theorem accepted_fits_limit (p : Plan) (pc : RD) (fnrd : Bool) (mc : Nat) (hk : 
   omega
 
 /-- **A request above `max_cores` is refused at `submit`**, in slots: per-call or executor-level
-    cores times per-call threads. -/
+    cores times per-call or executor-level threads per core (fix 8703212). -/
 theorem rejects_slots_above_limit (p : Plan) (pc : RD) (fnrd : Bool) (mc : Nat) (hk : p.kind = .step)
     (hpl : (p.resolver && p.plot) = false) (hm : p.maxCores = some mc) (hlt : mc < slots p pc) :
     submitCheck p pc fnrd = .error .valueError := by
   rw [submitCheck_step hk hpl, hm]
   simp only [hlt, decide_true, Bool.or_true, if_true, ite_self]
+
+/-- **An accepted request fits `max_cores` counting the executor-level threads per core** (fix
+    8703212): on the executor the constructor returned, whatever `submit` lets through occupies —
+    cores the worker uses times the per-call `threads_per_core`, or the executor-level one when the
+    call names none — at most `max_cores`.  (`accepted_fits_limit` with `slots` unfolded.) -/
+theorem accepted_threads_counted (env : Env) (o : Opts) (p : Plan) (pc : RD) (fnrd : Bool) (mc : Nat)
+    (hc : construct env o = .ok p) (hk : p.kind = .step) (hpl : (p.resolver && p.plot) = false)
+    (hm : p.maxCores = some mc) (hs : submitCheck p pc fnrd = .ok ()) :
+    ((effective p pc).cores.getD 1) * (pc.threads <|> p.rd.threads).getD 1 ≤ mc := by
+  have _ := hc
+  exact accepted_fits_limit p pc fnrd mc hk hpl hm hs
 
 /-- **Accepted configurations run the call — outside the listed regions.**  If the constructor
     returns an executor and `submit` accepts the call, then either the configuration lies in one of
@@ -564,19 +607,38 @@ theorem cores_above_limit_accepted_with_block_and_max_workers :
       p.kind = .block 3 ∧ p.maxCores = some 1 ∧ p.cores = 2 :=
   ⟨_, rfl, rfl, rfl, rfl⟩
 
-/-- **A per-call request above `max_cores` is refused at `submit`** (fix 06d6e8a), with and without
-    the dependency resolver.
-    Hypothesis `hc1`: since fix 472d455 `submit` compares the cores the worker thread will use, which
-    are the executor-level cores when the call gives none (or 1).  A bare `Plan` need not come from
-    the constructor; for one that does, `hc1` holds (`accepted_positive`, fix 55646a2 — the formerly
-    accepted cell with executor-level `cores = 0` is refused now: `zero_cores_rejected`).  The
-    statement in slots, without side condition, is `rejects_slots_above_limit`. -/
-theorem rejects_percall_above_limit (p : Plan) (pc : RD) (fnrd : Bool) (mc : Nat) (hk : p.kind = .step)
-    (hm : p.maxCores = some mc) (hlt : mc < pc.cores.getD 1 * pc.threads.getD 1) (hpl : p.plot = false)
-    (hc1 : 1 ≤ p.cores) :
-    submitCheck p pc fnrd = .error .valueError := by
-  apply rejects_slots_above_limit p pc fnrd mc hk (by rw [hpl, Bool.and_false]) hm
-  refine Nat.lt_of_lt_of_le hlt (Nat.mul_le_mul_right _ ?_)
+/-- **An executor-level request above `max_cores`, counting the threads per core, is refused up
+    front** (fix 8703212) on the back ends that hand `threads_per_core` on to the workers (all but
+    the local one), without block allocation. -/
+theorem rejects_exec_threads_above_limit (env : Env) (o : Opts) (mc : Nat) (hm : o.maxCores = some mc)
+    (hlt : mc < o.rd.cores.getD 1 * o.rd.threads.getD 1) (hb : o.backend.isSubmission = false)
+    (hl : effBackend o ≠ .local) (hblk : o.block = false) :
+    ∃ e, construct env o = .error e := by
+  cases hres : construct env o with
+  | error e => exact ⟨e, rfl⟩
+  | ok p =>
+    exfalso
+    rcases construct_inv hres with ⟨-, hs, -⟩ | ⟨p', hce, -⟩
+    · rw [hb] at hs; cases hs
+    · have hi := createExecutor_inv hce
+      have hlim := hi.limit hblk mc hm
+      have hth : p'.rd.threads = o.rd.threads := by
+        rw [hi.rdThreads, if_neg (by simpa using hl)]
+      rw [hth] at hlim
+      exact Nat.lt_irrefl _ (Nat.lt_of_lt_of_le hlt hlim)
+
+/-- **The executor-level threads per core of an accepted interactive executor are positive** (fix
+    55646a2), also after the deletion on the local back end -/
+theorem accepted_threads_positive (env : Env) (o : Opts) (p : Plan) (hb : o.backend.isSubmission = false)
+    (hc : construct env o = .ok p) : 1 ≤ p.rd.threads.getD 1 := by
+  rcases construct_inv hc with ⟨-, hs, -⟩ | ⟨p', hce, -, -, -, -, -, hrd⟩
+  · rw [hb] at hs; cases hs
+  · rw [hrd]; exact (createExecutor_inv hce).threadsPosPlan
+
+/-- the cores the worker thread uses are at least the per-call cores, for an executor with at least
+    one core per worker -/
+private theorem percall_cores_le_effective (p : Plan) (pc : RD) (hc1 : 1 ≤ p.cores) :
+    pc.cores.getD 1 ≤ (effective p pc).cores.getD 1 := by
   simp only [effective, Option.getD_some]
   cases pc.cores with
   | none => exact hc1
@@ -585,6 +647,44 @@ theorem rejects_percall_above_limit (p : Plan) (pc : RD) (fnrd : Bool) (mc : Nat
     split
     · rename_i h; omega
     · exact Nat.le_refl k
+
+/-- **A per-call request above `max_cores` is refused at `submit`, counting the executor-level
+    threads per core** (fix 8703212): the per-call cores times the EFFECTIVE threads per core — the
+    per-call value, else the executor-level one — above `max_cores` is refused.  (Same side
+    condition `hc1` as `rejects_percall_above_limit`.) -/
+theorem rejects_percall_above_limit_exec_threads (p : Plan) (pc : RD) (fnrd : Bool) (mc : Nat) (hk : p.kind = .step)
+    (hm : p.maxCores = some mc) (hlt : mc < pc.cores.getD 1 * (pc.threads <|> p.rd.threads).getD 1)
+    (hpl : p.plot = false) (hc1 : 1 ≤ p.cores) :
+    submitCheck p pc fnrd = .error .valueError := by
+  apply rejects_slots_above_limit p pc fnrd mc hk (by rw [hpl, Bool.and_false]) hm
+  exact Nat.lt_of_lt_of_le hlt (Nat.mul_le_mul_right _ (percall_cores_le_effective p pc hc1))
+
+/-- **A per-call request above `max_cores` is refused at `submit`** (fix 06d6e8a), with and without
+    the dependency resolver.
+    Hypothesis `hc1`: since fix 472d455 `submit` compares the cores the worker thread will use, which
+    are the executor-level cores when the call gives none (or 1).  A bare `Plan` need not come from
+    the constructor; for one that does, `hc1` holds (`accepted_positive`, fix 55646a2 — the formerly
+    accepted cell with executor-level `cores = 0` is refused now: `zero_cores_rejected`).  The
+    statement in slots, without side condition, is `rejects_slots_above_limit`.
+    Still true as stated after fix 8703212 (per-call threads only): when the call names no threads
+    the executor-level threads per core take the place of the 1 — they are at least 1, or the call
+    is refused by `check_cores_and_threads`; the statement with the effective threads is
+    `rejects_percall_above_limit_exec_threads`. -/
+theorem rejects_percall_above_limit (p : Plan) (pc : RD) (fnrd : Bool) (mc : Nat) (hk : p.kind = .step)
+    (hm : p.maxCores = some mc) (hlt : mc < pc.cores.getD 1 * pc.threads.getD 1) (hpl : p.plot = false)
+    (hc1 : 1 ≤ p.cores) :
+    submitCheck p pc fnrd = .error .valueError := by
+  have hpl' : (p.resolver && p.plot) = false := by rw [hpl, Bool.and_false]
+  by_cases ht : (pc.threads <|> p.rd.threads).getD 1 < 1
+  · -- executor-level threads per core below 1 (a bare `Plan`): refused by `check_cores_and_threads`
+    rw [submitCheck_step hk hpl']
+    simp only [ht, decide_true, Bool.or_true, Bool.true_or, if_true, ite_self]
+  · apply rejects_percall_above_limit_exec_threads p pc fnrd mc hk hm ?_ hpl hc1
+    refine Nat.lt_of_lt_of_le hlt (Nat.mul_le_mul_left _ ?_)
+    rw [orElse_getD] at ht ⊢
+    cases hth : pc.threads with
+    | none => rw [hth] at ht; simp only [Option.getD_none] at ht ⊢; omega
+    | some t => exact Nat.le_refl _
 
 /-- the former counterexample to `rejects_percall_above_limit` without `hc1` (executor-level
     `cores = 0`, `max_cores = 0`) is refused by the constructor (fix 55646a2) -/
@@ -605,13 +705,19 @@ theorem rejects_nonpositive_cores (env : Env) (o : Opts) (hb : o.backend.isSubmi
       rw [h0] at this
       exact absurd this (by decide)
 
+/-- **Non-positive effective threads per core are refused at `submit`** (fixes 55646a2, 8703212): the
+    per-call value, else the executor-level one -/
+theorem rejects_nonpositive_threads_effective (p : Plan) (pc : RD) (fnrd : Bool) (hk : p.kind = .step)
+    (hpl : (p.resolver && p.plot) = false) (h0 : (pc.threads <|> p.rd.threads).getD 1 = 0) :
+    submitCheck p pc fnrd = .error .valueError := by
+  rw [submitCheck_step hk hpl, h0]
+  simp only [Nat.lt_add_one, decide_true, Bool.or_true, Bool.true_or, if_true, ite_self]
+
 /-- **Non-positive per-call threads are refused at `submit`** (fix 55646a2) -/
 theorem rejects_nonpositive_threads_percall (p : Plan) (pc : RD) (fnrd : Bool) (hk : p.kind = .step)
     (hpl : (p.resolver && p.plot) = false) (h0 : pc.threads = some 0) :
-    ∃ e, submitCheck p pc fnrd = .error e := by
-  refine ⟨.valueError, ?_⟩
-  rw [submitCheck_step hk hpl, h0]
-  simp only [Option.getD_some, Nat.lt_add_one, decide_true, Bool.or_true, Bool.true_or, if_true, ite_self]
+    ∃ e, submitCheck p pc fnrd = .error e :=
+  ⟨.valueError, rejects_nonpositive_threads_effective p pc fnrd hk hpl (by rw [h0]; rfl)⟩
 
 /-- **An executor built by `create_executor` has at least one core per worker** (fix 55646a2) -/
 theorem accepted_positive (env : Env) (o : Opts) (p : Plan) (hb : o.backend.isSubmission = false)
@@ -642,14 +748,16 @@ def toCfg (p : Plan) (pc : RD) : Sys.Cfg :=
       | .block _ => none
       | _ => p.maxWorkers
     execCores := p.cores
+    execThreads := p.rd.threads.getD 1
     calls := [{ deps := [], cores := pc.cores, threads := pc.threads, hasRes := !pc.isEmpty }] }
 
-/-- `Config.slots` and `Sys.slotsOf` are the same arithmetic expression -/
+/-- `Config.slots` and `Sys.slotsOf` are the same arithmetic expression (the executor-level threads
+    per core of the plan are `execThreads`: fix 8703212) -/
 private theorem slotsOf_toCfg (p : Plan) (pc : RD) (c : Sys.CallSpec) (hc : c ∈ (toCfg p pc).calls) :
     Sys.slotsOf (toCfg p pc) c = slots p pc := by
   simp only [toCfg, List.mem_singleton] at hc
   subst hc
-  simp only [Sys.slotsOf, slots, effective, toCfg, Option.getD_some]
+  simp only [Sys.slotsOf, slots, effective, toCfg, Option.getD_some, orElse_getD]
   rfl
 
 open ExecModel.Sys in
@@ -793,7 +901,9 @@ theorem accepted_config_runs_any_program (env : Env) (p : Plan) (pc : RD) (hk : 
          C05.shutdown_returns_lim _ eval cancelErr hnf hwf hl hsc h hD hst⟩
 
 open ExecModel.Sys in
-/-- the same for any `Sys` configuration that agrees with the plan's in the executor-level fields -/
+/-- the same for any `Sys` configuration that agrees with the plan's in the executor-level fields
+    (`hres`, `hec` are kept from the former statement and not used; no agreement on `execThreads` is
+    needed: the limit-level hypothesis `WfLim` does not mention slots) -/
 theorem accepted_config_runs_any_program_cfg (env : Env) (p : Plan) (pc : RD) (hk : p.kind ≠ .file)
     (hpl : (p.resolver && p.plot) = false) (hr : Runnable env p pc = true)
     (cfg : Cfg) (hres : cfg.resolver = (toCfg p pc).resolver) (hblk : cfg.block = (toCfg p pc).block)
@@ -805,12 +915,15 @@ theorem accepted_config_runs_any_program_cfg (env : Env) (p : Plan) (pc : RD) (h
     (h : Reachable cfg eval cancelErr script s) (hD : pg_depOk cfg s = true)
     (hst : Stuck cfg eval cancelErr s) :
     allAcceptedDone s = true ∧ mainFinished s = true := by
-  have e : cfg = { toCfg p pc with calls := cfg.calls } := by
-    cases cfg
-    simp only at hres hblk hmc hmw hec
-    simp only [hres, hblk, hmc, hmw, hec]
-  rw [e] at hwf h hD hst
-  exact accepted_config_runs_any_program env p pc hk hpl hr cfg.calls hwf eval cancelErr hnf script hsc h hD hst
+  have _ := hres
+  have _ := hec
+  -- `WfLim` reads `block`, `maxCores`, `maxWorkers` only: `execThreads` (and `execCores`, `resolver`)
+  -- need not agree
+  have hl : WfLim cfg := by
+    obtain ⟨h1, h2⟩ := runnable_wfLim env p pc hk hpl hr
+    refine ⟨fun n hn => h1 n (hblk ▸ hn), fun hc mw hw => h2 (hmc ▸ hc) mw (hmw ▸ hw)⟩
+  exact ⟨C02.no_lost_futures_lim _ eval cancelErr hnf hwf hl hsc h hD hst,
+         C05.shutdown_returns_lim _ eval cancelErr hnf hwf hl hsc h hD hst⟩
 
 /-! ### carrying the limits over for block plans changes nothing
 
@@ -830,6 +943,7 @@ private def blockCfg (p : Plan) (pc : RD) (n : Nat) (a b : Option Nat) : Sys.Cfg
     maxCores := a
     maxWorkers := b
     execCores := p.cores
+    execThreads := p.rd.threads.getD 1
     calls := [{ deps := [], cores := pc.cores, threads := pc.threads, hasRes := !pc.isEmpty }] }
 
 section Transfer
@@ -839,10 +953,12 @@ variable {Val Err : Type}
 /-- with a block allocation the transition function never looks at `maxCores` / `maxWorkers`
     (the dispatcher thread, the only reader, does not exist) -/
 theorem step_block_irrel (eval : Nat → List Val → Except Err Val) (cancelErr : Err)
-    (r : Bool) (n : Nat) (a a' b b' : Option Nat) (e : Nat) (cs : List CallSpec)
+    (r : Bool) (n : Nat) (a a' b b' : Option Nat) (e t : Nat) (cs : List CallSpec)
     (s : State Val Err) (hd : s.disp = none) (l : Label Val Err) :
-    step { resolver := r, block := some n, maxCores := a, maxWorkers := b, execCores := e, calls := cs } eval cancelErr s l =
-    step { resolver := r, block := some n, maxCores := a', maxWorkers := b', execCores := e, calls := cs } eval cancelErr s l := by
+    step { resolver := r, block := some n, maxCores := a, maxWorkers := b, execCores := e, execThreads := t, calls := cs }
+      eval cancelErr s l =
+    step { resolver := r, block := some n, maxCores := a', maxWorkers := b', execCores := e, execThreads := t, calls := cs }
+      eval cancelErr s l := by
   unfold step
   split
   all_goals first
@@ -850,11 +966,11 @@ theorem step_block_irrel (eval : Nat → List Val → Except Err Val) (cancelErr
     | (simp only [dispStep, hd])
 
 private theorem run_block_irrel (eval : Nat → List Val → Except Err Val) (cancelErr : Err)
-    (r : Bool) (n : Nat) (a a' b b' : Option Nat) (e : Nat) (cs : List CallSpec)
+    (r : Bool) (n : Nat) (a a' b b' : Option Nat) (e t : Nat) (cs : List CallSpec)
     {s0 s : State Val Err} (ls : List (Label Val Err)) (hB : Blk n s0)
-    (h : run { resolver := r, block := some n, maxCores := a, maxWorkers := b, execCores := e, calls := cs }
+    (h : run { resolver := r, block := some n, maxCores := a, maxWorkers := b, execCores := e, execThreads := t, calls := cs }
           eval cancelErr s0 ls = some s) :
-    run { resolver := r, block := some n, maxCores := a', maxWorkers := b', execCores := e, calls := cs }
+    run { resolver := r, block := some n, maxCores := a', maxWorkers := b', execCores := e, execThreads := t, calls := cs }
           eval cancelErr s0 ls = some s := by
   induction ls generalizing s0 with
   | nil => simpa [run] using h
@@ -863,7 +979,7 @@ private theorem run_block_irrel (eval : Nat → List Val → Except Err Val) (ca
     obtain ⟨s1, h1, h2⟩ := h
     refine ⟨s1, ?_, ih (blk_step _ eval cancelErr hB h1) h2⟩
     rw [← h1]
-    exact step_block_irrel eval cancelErr r n a' a b' b e cs s0 hB.1 l
+    exact step_block_irrel eval cancelErr r n a' a b' b e t cs s0 hB.1 l
 
 /-- the states reachable and the maximal runs are the same with and without the limits copied -/
 theorem toCfgRaw_same_runs (p : Plan) (pc : RD) (eval : Nat → List Val → Except Err Val) (cancelErr : Err)
@@ -890,10 +1006,10 @@ theorem toCfgRaw_same_runs (p : Plan) (pc : RD) (eval : Nat → List Val → Exc
       refine ⟨ls, ?_⟩
       have hB0 : Blk n (init (blockCfg p pc n none none) script : State Val Err) := by
         simp [Blk, init, blockCfg]
-      exact run_block_irrel eval cancelErr _ n _ none _ none _ _ ls hB0 hls
+      exact run_block_irrel eval cancelErr _ n _ none _ none _ _ _ ls hB0 hls
     · intro l
       rw [← hst l]
-      exact step_block_irrel eval cancelErr _ n none _ none _ _ _ s hB.1 l
+      exact step_block_irrel eval cancelErr _ n none _ none _ _ _ _ s hB.1 l
 
 end Transfer
 
@@ -944,6 +1060,25 @@ example : construct {} { backend := .localSub } = .error .valueError := rfl
 example : ∃ p, construct {} { maxCores := some 3, rd := { cores := some 2 } } = .ok p ∧
     submitCheck p { threads := some 2 } false = .error .valueError :=
   ⟨_, rfl, rfl⟩
+
+/-- fix 8703212: the executor-level `threads_per_core` counts against `max_cores` where it is handed
+    on to the workers (here: slurm allocation) — 1 core × 2 threads fits `max_cores = 2`, and the
+    call without a dictionary is accounted 2 slots and accepted; -/
+example : ∃ p, construct {} { backend := .slurmAlloc, maxCores := some 2, rd := { threads := some 2 } } = .ok p ∧
+    slots p {} = 2 ∧ submitCheck p {} false = .ok () :=
+  ⟨_, rfl, rfl, rfl⟩
+/-- with `max_cores = 1` the constructor refuses; -/
+example : construct {} { backend := .slurmAlloc, maxCores := some 1, rd := { threads := some 2 } } = .error .valueError := rfl
+/-- the local back end does not hand the threads on: accepted, 1 slot; -/
+example : ∃ p, construct {} { maxCores := some 1, rd := { threads := some 2 } } = .ok p ∧
+    slots p {} = 1 ∧ submitCheck p {} false = .ok () :=
+  ⟨_, rfl, rfl, rfl⟩
+/-- a call naming 2 cores and no threads on the slurm executor above: 2 × 2 slots, refused at `submit`
+    (accepted before the fix, and then never started by the dispatcher) -/
+example : ∃ p, construct {} { backend := .slurmAlloc, maxCores := some 2, rd := { threads := some 2 } } = .ok p ∧
+    slots p { cores := some 2 } = 4 ∧ submitCheck p { cores := some 2 } false = .error .valueError ∧
+    submitCheck p { cores := some 2, threads := some 1 } false = .ok () :=
+  ⟨_, rfl, rfl, rfl, rfl⟩
 
 /-- the cell behind the two corrections (`rejects_cores_above_limit` needs `hw`; `toCfg` drops the
     limits of block plans): block allocation, `max_workers = 3` given, `max_cores = 1` below the
